@@ -632,7 +632,7 @@ func init() {
 			Prop: "C16", Level: "fault_enumeration", Engine: "fault",
 			Runs:   tierPick(tier, 2400, 200000),
 			Budget: tierPick(tier, 55*time.Second, 14*time.Minute),
-			Rule: "each generated session (1-6 puts + Finalize on blockstore.ReadWrite, storage.StorageCar, storage.NewWritable over a WriterAt, storage.NewWritable over a plain stream, deferred stream writer; swarm-drawn options; optional immediate retry of a failed Put) is run fault-free to census its write calls, then re-run once per single-fault plan: for EVERY write call a transient failure (0, err), and a short write (j, err) for " +
+			Rule: "each generated session (1-6 puts + Finalize on blockstore.ReadWrite, storage.StorageCar, storage.NewWritable over a WriterAt, storage.NewWritable over a plain stream, deferred stream writer; swarm-drawn options; optional immediate retry of a failed Put; a third of the read-write sessions start with a prior history closed by Discard/Finalize and resumed, and a reopen that reports a fault is retried) is run fault-free to census its write calls, then re-run once per single-fault plan: for EVERY write call a transient failure (0, err), and a short write (j, err) for " +
 				tierPick(tier, "every j of calls <= 48 bytes and j in {1, mid, len-1} of longer ones", "every byte j") +
 				", plus 12 sampled two-fault plans. Oracle: the faulted call returns an error, the failed block is not reported by Has/Get, acknowledged blocks still read back exactly, and if every later call succeeds the finalized image equals the reference encoding of exactly the acknowledged blocks. " +
 				"An evaluation is one session execution under one plan; distinct non-trivial = distinct (options, session length, structural locus of the faulted call, fault kind, vacuous?, outcome)",
